@@ -209,7 +209,27 @@ def m_c19(cl):
     return False
 
 
+def m_c11(cl):
+    for ln in cl:
+        if not ln.get("reset") and ln["op"]["k"] == "import" and ln["res"]["ok"]:
+            st = ln["st"].get(ln["op"]["l"])
+            if st and st["accts"]:
+                st["accts"][0]["first"] += 1
+                return True
+    return False
+
+
+def m_c12(cl):
+    for ln in cl:
+        if not ln.get("reset") and ln["op"]["k"] == "import" and not ln["res"]["ok"]:
+            ln["res"]["ok"], ln["res"]["err"] = True, ""
+            return True
+    return False
+
+
 CONTROLS = {
+    "C11": ("Step_C11_ImportFaithful", m_c11),
+    "C12": ("Step_C12_ImportOutcome", m_c12),
     "C19": ("Step_C19_Frame", m_c19),
     "C01": ("Inv_C01_Conservation", m_c01),
     "C02": ("Inv_C02_VolumesAreFold", m_c02),
